@@ -10,7 +10,7 @@ import (
 var cliSites = []string{"rsp.wait.woke", "rsp.wait.woke", "cli.accept.recv", "cli.deliver.lock", "cli.send.lock", "cli.wait.lock", "cli.wait.hook", "cli.cb.lock", "cli.close.lock"}
 
 func clientCfg(t *rapid.T) sim.CConfig {
-	c := sim.CConfig{Chan: pick(t, "chan", []string{"direct", "pipe"}), Salt: rapid.Uint64().Draw(t, "salt"), Yield: pick(t, "yield", []int{0, 0, 1, 3})}
+	c := sim.CConfig{Chan: pick(t, "chan", []string{"direct", "pipe", "reuse"}), Salt: rapid.Uint64().Draw(t, "salt"), Yield: pick(t, "yield", []int{0, 0, 1, 3})}
 	if rapid.IntRange(0, 9).Draw(t, "nohooks") == 0 {
 		c.NoHooks = true
 	}
